@@ -25,12 +25,11 @@ pub fn number_constructor_fn(
     this: JsValue,
     args: &[JsValue],
 ) -> Result<Guarded, JsError> {
-    // Get the number value from argument
-    let num_val = args
-        .first()
-        .cloned()
-        .unwrap_or(JsValue::Number(0.0))
-        .to_number();
+    // Get the number value from argument (ToNumber: objects go through ToPrimitive first)
+    let num_val = match args.first() {
+        Some(v) => interp.coerce_to_number(v)?,
+        None => 0.0,
+    };
 
     // Check if called with `new` (this will be a fresh object with Number.prototype)
     if let JsValue::Object(obj) = &this {
